@@ -52,8 +52,8 @@ def check_cleanup_guards(ctx: Ctx) -> None:
 
                 def len_is_one(at: Node) -> bool:
                     for a, truth, b in guard_atoms(prog, fi, at):
-                        if truth and isinstance(a, ast.Compare) and len(a.ops) == 1 and isinstance(a.ops[0], ast.Eq) \
-                                and isinstance(a.comparators[0], ast.Constant) and a.comparators[0].value == 1 \
+                        if isinstance(a, ast.Compare) and len(a.ops) == 1 and isinstance(a.comparators[0], ast.Constant) and a.comparators[0].value == 1 \
+                                and ((truth and isinstance(a.ops[0], ast.Eq)) or (not truth and isinstance(a.ops[0], ast.NotEq))) \
                                 and canon(a.left, b) == f"len({obj}.children)":
                             return True
                     return False
